@@ -216,7 +216,7 @@ def multi_cells(chk: Check, mm: Mismatch, *, variant: str, hdrs: list, via: str,
         inputs = [(torch.tensor([[bool(xs[j][t])]]), torch.tensor([[bool(ys[j][t])]])) for j in range(n)]
         r = rng.choice((-1, 0, 1, 2)) if three else 1
         unit = rng.choice([1.0, 0.7]) if three and not dyadic else 1.0
-        scale = rng.choice([1.0, 0.5]) if three else 1.0
+        scale = rng.choice([1.0, 0.5, -0.5]) if three else 1.0    # documented: the absolute value of the scale is used
         sel = None
         if three and rng.random() < 0.4:
             sel = [run.names[rng.randrange(n)]]
@@ -242,7 +242,7 @@ def multi_cells(chk: Check, mm: Mismatch, *, variant: str, hdrs: list, via: str,
             if sel is not None and run.names[j] not in sel:
                 alts_v = [(0.0, 0.0)]
             else:
-                P = params(j, unit * scale)
+                P = params(j, unit * abs(scale))
                 alts_v = [evaluate(b, P) for b in expect(j, xs[j], ys[j], t, r, ds[j])]
                 if on_edge:
                     on_edge(j, xs[j], ys[j], t, r, ds[j])
